@@ -170,12 +170,24 @@ class Database:
             logger.info(
                 "Applying migration version %d (%s)", idx, migration.__name__
             )
-            await migration(self.conn)
-            await self.execute(
-                "insert into versions (version) values (?)",
-                str(idx),
-                commit=True,
-            )
+            # NOTE: The migration and the record that it has been applied
+            #       must become durable together. DDL outside of an explicit
+            #       transaction is committed at once; if we died between the
+            #       migration and the insert of its version row the next start
+            #       would run the migration again and fail for ever ("table
+            #       ... already exists", "duplicate column name".)
+            #
+            await self.conn.execute("BEGIN")
+            try:
+                await migration(self.conn)
+                await self.conn.execute(
+                    "insert into versions (version) values (?)",
+                    str(idx),
+                )
+                await self.conn.commit()
+            except BaseException:
+                await self.conn.rollback()
+                raise
 
     ####################################################################
     #
